@@ -1095,4 +1095,220 @@ MUTANTS += [
      "expect": []},
 ]
 
-BENIGN = []
+BENIGN = [
+    {"name": "b01-rename-fn-and-local",
+     "edits": [],
+     "sed": [("src/index/manager.rs", "apply_wal_op_unsafe", "log_then_apply"), ("src/index/manager.rs", "unreferenced_from_op", "dead_hashes")]},
+    {"name": "b02-reorder-independent-statements",
+     "edits": [("src/transaction.rs",
+                """        self.size += data.len() as u64;
+        self.hasher.update(data);""",
+                """        self.hasher.update(data);
+        self.size += data.len() as u64;""")]},
+    {"name": "b03-if-to-match",
+     "edits": [("src/cas.rs",
+                """        if self.index.read_state().contains_key(key) {
+            let delete_fn = |hashes: &[BlobHash]| -> Result<(), CasManagerError> {
+                self.cas_manager.delete_blobs(hashes).map(|_| ())
+            };
+
+            self.index.apply_remove_op(vec![key.clone()], &delete_fn).map_err(LibError::Index)?;
+            Ok(true)
+        } else {
+            Ok(false)
+        }""",
+                """        let present = self.index.read_state().contains_key(key);
+        match present {
+            true => {
+                let delete_fn = |hashes: &[BlobHash]| -> Result<(), CasManagerError> {
+                    self.cas_manager.delete_blobs(hashes).map(|_| ())
+                };
+
+                self.index.apply_remove_op(vec![key.clone()], &delete_fn).map_err(LibError::Index)?;
+                Ok(true)
+            }
+            false => Ok(false),
+        }""")]},
+    {"name": "b04-min-to-conditional",
+     "edits": [("src/cas.rs",
+                """            let range_end = std::cmp::min(range_end, item.blob_size);""",
+                """            let range_end = if range_end > item.blob_size { item.blob_size } else { range_end };""")]},
+    {"name": "b05-question-mark-to-match",
+     "edits": [("src/wal/storage.rs",
+                """        self.writer.flush().map_err(|e| WalError::Io {
+            operation: WalIoOperation::FlushWriter,
+            path: None,
+            source: e,
+        })?;
+        self.writer.get_ref().sync_data()""",
+                """        match self.writer.flush() {
+            Ok(()) => {}
+            Err(e) => {
+                return Err(WalError::Io { operation: WalIoOperation::FlushWriter, path: None, source: e });
+            }
+        }
+        self.writer.get_ref().sync_data()""")]},
+    {"name": "b06-scope-instead-of-drop",
+     "edits": [("src/orphan.rs",
+                """        let blob_path = self.cas_inner.paths.cas_file_path(hash);
+        let _intents = self.cas_inner.index.pending_intents.lock();
+        let state = self.cas_inner.index.read_state();
+        let still_referenced = state.contains_blob_hash(hash);
+        let has_intent = self.cas_inner.index.has_live_intent(hash);
+        drop(state);
+""",
+                """        let blob_path = self.cas_inner.paths.cas_file_path(hash);
+        let _intents = self.cas_inner.index.pending_intents.lock();
+        let (still_referenced, has_intent) = {
+            let state = self.cas_inner.index.read_state();
+            (state.contains_blob_hash(hash), self.cas_inner.index.has_live_intent(hash))
+        };
+""")]},
+    {"name": "b07-more-logging-and-error-text",
+     "edits": [("src/cas_manager.rs",
+                """        let final_cas_path = self.paths.cas_file_path(blob_hash);""",
+                """        let final_cas_path = self.paths.cas_file_path(blob_hash);
+        tracing::trace!(staging = %staging_path.display(), target = %final_cas_path.display(), "publishing blob");"""),
+               ("src/cas.rs",
+                """    #[error("Db instance is already in use")]""",
+                """    #[error("Database directory is locked by another handle")]""")]},
+    {"name": "b08-new-readonly-api",
+     "edits": [("src/cas.rs",
+                """    /// Returns root path of db provided at initialization""",
+                """    /// Number of keys currently stored.
+    #[must_use]
+    pub fn key_count(&self) -> usize {
+        self.index.read_state().len()
+    }
+
+    /// Whether the given key is present.
+    pub fn contains(&self, key: &K) -> bool
+    where
+        K: Ord,
+    {
+        self.index.read_state().contains_key(key)
+    }
+
+    /// Returns root path of db provided at initialization""")]},
+    {"name": "b09-rename-field",
+     "sed": [("src/index/manager.rs", "pending_intents", "intents_by_key"), ("src/orphan.rs", "pending_intents", "intents_by_key"),
+             ("src/cas.rs", "pending_intents", "intents_by_key")],
+     "edits": []},
+    {"name": "b10-extract-filter-helper",
+     "edits": [("src/index/manager.rs",
+                """        // Remove any unreferenced hashes that are still referenced by intents
+        unreferenced_from_op.retain(|hash| !self.has_live_intent(hash));
+""",
+                """        // Remove any unreferenced hashes that are still referenced by intents
+        self.keep_only_dead(&mut unreferenced_from_op);
+"""),
+               ("src/index/manager.rs",
+                """    fn release_live_hash(&self, hash: &BlobHash) {""",
+                """    /// Drops from `hashes` everything an in-flight commit still needs. Call with `pending_intents` held.
+    fn keep_only_dead(&self, hashes: &mut Vec<BlobHash>) {
+        hashes.retain(|hash| !self.has_live_intent(hash));
+    }
+
+    fn release_live_hash(&self, hash: &BlobHash) {""")]},
+    {"name": "b11-move-fn-to-other-module",
+     "edits": [("src/cas.rs",
+                """#[must_use]
+pub fn calculate_blob_hash(blob_data: &[u8]) -> BlobHash {
+    BlobHash(blake3::hash(blob_data).into())
+}
+""",
+                """pub use crate::types::calculate_blob_hash;
+"""),
+               ("src/types.rs",
+                """impl PartialEq for BlobHash {""",
+                """#[must_use]
+pub fn calculate_blob_hash(blob_data: &[u8]) -> BlobHash {
+    BlobHash(blake3::hash(blob_data).into())
+}
+
+impl PartialEq for BlobHash {""")]},
+    {"name": "b12-let-else-to-match",
+     "edits": [("src/cas.rs",
+                """            let Some(item) = state.get_item(key) else {
+                return Ok(None);
+            };
+            let file = self.cas_manager.open_blob(&item.blob_hash);""",
+                """            let item = match state.get_item(key) {
+                Some(item) => item,
+                None => return Ok(None),
+            };
+            let file = self.cas_manager.open_blob(&item.blob_hash);""")]},
+    {"name": "b13-capacity-hints",
+     "edits": [("src/index/state.rs",
+                """        let mut unreferenced_hashes = Vec::new();""",
+                """        let mut unreferenced_hashes = Vec::with_capacity(2);"""),
+               ("src/serialization.rs",
+                """pub(crate) fn serialize_wal_op_raw(op: &WalOpRaw) -> Result<Vec<u8>, SerializationError> {
+    let mut result = Vec::new();""",
+                """pub(crate) fn serialize_wal_op_raw(op: &WalOpRaw) -> Result<Vec<u8>, SerializationError> {
+    let mut result = Vec::with_capacity(64);""")]},
+    {"name": "b14-inline-fdatasync-helper-name",
+     "sed": [("src/cas.rs", "pub(crate) fn fdatasync", "pub(crate) fn sync_staged"), ("src/transaction.rs", "cas_inner.fdatasync", "cas_inner.sync_staged")],
+     "edits": []},
+    {"name": "b15-shared-tail-helper",
+     "edits": [("src/index/manager.rs",
+                """        // Remove any unreferenced hashes that are still referenced by intents
+        unreferenced_from_op.retain(|hash| !self.has_live_intent(hash));
+
+        // Delete blobs BEFORE any checkpoint
+        if !unreferenced_from_op.is_empty() {
+            delete_fn(&unreferenced_from_op).map_err(|e| IndexError::BlobDeletion { source: e })?;
+        }
+
+        drop(intents);
+
+        if rolled_over {
+            let mut state = self.state.write();
+            let mut wal = self.wal.lock();
+            self.checkpoint_inner(CheckpointReason::SegmentRollover, &mut wal, &mut state)?;
+        }
+
+        Ok(())
+    }
+
+    fn checkpoint_inner(""",
+                """        // Remove any unreferenced hashes that are still referenced by intents
+        unreferenced_from_op.retain(|hash| !self.has_live_intent(hash));
+
+        // Delete blobs BEFORE any checkpoint
+        if !unreferenced_from_op.is_empty() {
+            delete_fn(&unreferenced_from_op).map_err(|e| IndexError::BlobDeletion { source: e })?;
+        }
+
+        drop(intents);
+
+        self.checkpoint_if_rolled_over(rolled_over)
+    }
+
+    fn checkpoint_if_rolled_over(&self, rolled_over: bool) -> Result<(), IndexError> {
+        if rolled_over {
+            let mut state = self.state.write();
+            let mut wal = self.wal.lock();
+            self.checkpoint_inner(CheckpointReason::SegmentRollover, &mut wal, &mut state)?;
+        }
+        Ok(())
+    }
+
+    fn checkpoint_inner(""")]},
+    {"name": "b16-sync-all-instead-of-sync-data",
+     "edits": [("src/io.rs", """    temp_file.sync_data().map_err""", """    temp_file.sync_all().map_err""")]},
+    {"name": "b17-explicit-return-and-temp",
+     "edits": [("src/wal/manager.rs",
+                """        let writer = self.active_writer.as_mut().unwrap();
+        let op_hash = calculate_blob_hash(op_data);
+        writer.write_entry(version, op_hash, op_data)?;
+
+        Ok(WalAppendInfo { version, op_hash })""",
+                """        let op_hash = calculate_blob_hash(op_data);
+        let writer = self.active_writer.as_mut().unwrap();
+        let outcome = writer.write_entry(version, op_hash, op_data);
+        outcome?;
+
+        let info = WalAppendInfo { version, op_hash };
+        return Ok(info);""")]},
+]
